@@ -155,7 +155,7 @@ def r10c(ctx, rep):
                 if any(x.startswith(RS) for x in A.place_fields(st[0])):
                     eff.append('write ' + A.place_fields(st[0])[-1].split('.')[-1])
             t = f.bbs[b]['t']
-            if t[0] == 'call' and re.search(r'BTreeMap.*::(insert|remove)$|clone_from$|Vec.*::push$', t[1]):
+            if t[0] == 'call' and re.search(r'BTreeMap.*::(insert|remove|split_off|retain|clear|append|extend|pop_last|pop_first)$|clone_from$|Vec.*::(push|truncate|clear|retain|drain|extend\w*)$|HashMap.*::(insert|remove|retain|clear)$', t[1]):
                 eff.append('call ' + t[1].split('::')[-1])
         if eff:
             rep.holds('R10c', f, 'arm ' + name, 'effects: %s' % sorted(set(eff))[:4])
@@ -246,11 +246,86 @@ def r10d(ctx, rep):
             rep.holds('R10d', f, nm, 'argument %d of with_state is the recovered field itself' % found[nm][0])
 
 
+def r10e(ctx, rep):
+    rep.rule('R10e', 'a log that is replaced wholesale is persisted wholesale: in every RaftNode function that assigns a collection to '
+                     'PersistentState.log and persists entries itself, (a) each persist_log_entry argument is an element of that same '
+                     'collection, reached with no narrowing adaptor (filter, skip, take, …), and (b) the index handed to '
+                     'persist_log_truncate is a constant or derives from that collection — not from the old log or the snapshot '
+                     'metadata. A restart rebuilds the log from the WAL alone: an entry that is installed but skipped (because an entry with '
+                     'that index, of an older term, was already logged) comes back as the old entry although the new one was acknowledged')
+    cr = ctx.crate('tensor_chain')
+    LOGF = 'tensor_chain::raft::PersistentState.log'
+    NARROW = re.compile(r'Iterator::(filter|filter_map|skip|skip_while|take|take_while|step_by|flat_map|find)$')
+    n = 0
+    for name, f in sorted(cr.fns.items()):
+        if not name.startswith('tensor_chain::raft::RaftNode::') or '{closure' in name:
+            continue
+        ws = [w for w in A.field_writes(f) if w[2] == LOGF and w[3][1] and w[3][1][-1] == LOGF and w[4] and w[4][0] == 'use' and w[4][1][0] in ('c', 'm')]
+        pe = A.calls_to(f, ('re', r'RaftNode::persist_log_entry$'))
+        # `entries.iter().try_for_each(|e| self.persist_log_entry(e))`: the persisting call sits in a closure; what is persisted is
+        # what the iterator handed to the adaptor yields
+        via_closure = []
+        for h in A.with_closures(cr.fns, name):
+            if h.name == name or not A.calls_to(h, ('re', r'RaftNode::persist_log_entry$')):
+                continue
+            for i_, b_ in enumerate(f.bbs):
+                for st_ in b_['s']:
+                    if st_[1][0] == 'agg' and st_[1][1] == 'closure:' + h.name and not st_[0][1]:
+                        for c_ in A.calls(f):
+                            if any(a_[0] in ('c', 'm') and not a_[1][1] and a_[1][0] == st_[0][0] for a_ in c_.args[1:]):
+                                via_closure.append(c_)
+        if not ws or not (pe or via_closure):
+            continue
+        defs = A.Defs(f)
+        src = A.backward_slice(f, [ws[0][4][1]], defs)
+        roots = (src.locals | {ws[0][4][1][1][0]})
+        n += 1
+        rep.analysed(f)
+        bad = None
+        for c in pe:
+            a = c.args[1] if len(c.args) > 1 else None
+            if a is None or a[0] == 'k':
+                continue
+            sl = A.backward_slice(f, [a], defs)
+            nar = sorted(x for x in sl.calls if NARROW.search(x))
+            if not (sl.locals & roots) and not (sl.params & src.params):
+                bad = ('persisted-other', c.line, 'the entries handed to persist_log_entry are not the collection that is installed as the log')
+            elif nar:
+                bad = ('persisted-subset', c.line, 'the installed entries reach persist_log_entry through %s: entries that are filtered out are in '
+                       'the in-memory log (and acknowledged to the leader) but not in the WAL' % ', '.join(lib.short(x) for x in nar))
+        for c in via_closure:
+            a = c.args[0]
+            if a[0] == 'k':
+                continue
+            sl = A.backward_slice(f, [a], defs)
+            nar = sorted(x for x in (sl.calls | {c.resolved, c.generic}) if NARROW.search(x))
+            if not (sl.locals & roots) and not (sl.params & src.params):
+                bad = ('persisted-other', c.line, 'the entries handed to persist_log_entry are not the collection that is installed as the log')
+            elif nar:
+                bad = ('persisted-subset', c.line, 'the installed entries reach persist_log_entry through %s: entries that are filtered out are in '
+                       'the in-memory log (and acknowledged to the leader) but not in the WAL' % ', '.join(lib.short(x) for x in nar))
+        for c in A.calls_to(f, ('re', r'RaftNode::persist_log_truncate$')):
+            a = c.args[1] if len(c.args) > 1 else None
+            if a is None or a[0] == 'k':
+                continue
+            sl = A.backward_slice(f, [a], defs)
+            if not (sl.locals & roots) and not (sl.params & src.params) and (sl.fields or sl.params or sl.calls):
+                bad = bad or ('truncate-index', c.line, 'the WAL is cut at an index taken from %s, not from the installed collection: records below it '
+                              'stay in the WAL and are replayed into a log that no longer has them' %
+                              (', '.join(sorted(x.split('::')[-1] for x in sl.fields)[:3]) or 'other state'))
+        if bad:
+            rep.violation('R10e', f, bad[0], f.loc(bad[1]), bad[2])
+        else:
+            rep.holds('R10e', f, 'log := collection', 'every element persisted, WAL cut at a constant / collection-derived index')
+    rep.floor('R10e', 'wholesale log replacements that persist entries', n, 1)
+
+
 def run(ctx, rep):
     raft_rules.r01a(ctx, rep)
     r10a(ctx, rep)
     r10c(ctx, rep)
     r10d(ctx, rep)
+    r10e(ctx, rep)
     wal_rules.r02b(ctx, rep, ['RaftWal'])
     wal_rules.r02e(ctx, rep, ['RaftWal'])
     wal_rules.r02f(ctx, rep, ['RaftWal'])
